@@ -12,6 +12,12 @@ import (
 	"verifharness/fw"
 )
 
+// leakBox is created per rule execution and kept in a local.
+type leakBox struct{ v int64 }
+
+func (b *leakBox) Put(d int64) { b.v += d }
+func (b *leakBox) Get() int64  { return b.v }
+
 // LeakProbe (C15): a local assigned in ONE execution of a rule must be undefined in every
 // other execution of the same rule - a later call on the same engine, a later request on the
 // same pooled instance, a concurrently running execution of the same rule.
@@ -95,6 +101,19 @@ end
 rule "reader" salience -9 begin
   probe3(Shared.V)
 end
+rule "arr" salience -14 begin
+  Shared.Arr[1] = 77
+end
+rule "boxa" salience -15 begin
+  lbx = mkbox(1)
+  lbx.Put(10)
+  probe10(lbx.Get(), 11)
+end
+rule "boxb" salience -16 begin
+  lbx = mkbox(2)
+  lbx.Put(20)
+  probe10(lbx.Get(), 22)
+end
 rule "nest" salience -13 begin
   forRange b1 := Shared.Tags2 {
     if b1 == 0 { break }
@@ -130,6 +149,7 @@ end
 	type sharedT struct {
 		V           int64
 		Tags, Tags2 []int64
+		Arr         [3]int64
 	}
 	shared := &sharedT{}
 	// a local keeps the VALUE it was given (here: a slice) when the injected field it came from is replaced,
@@ -174,7 +194,16 @@ end
 			atomic.AddInt64(&bad9, 1)
 		}
 	}
-	apis := map[string]interface{}{"probe9": probe9, "probe8": probe8, "probe6": probe6, "Cur": cur, "probe4": probe4, "probe5": probe5,
+	// a method called on a LOCAL receiver runs on the object this execution put there
+	var bad10 int64
+	var seen10 atomic.Value
+	probe10 := func(got, want int64) {
+		if got != want {
+			atomic.AddInt64(&bad10, 1)
+			seen10.Store(fmt.Sprintf("got %d, the rule's own object gives %d", got, want))
+		}
+	}
+	apis := map[string]interface{}{"probe10": probe10, "mkbox": func(v int64) *leakBox { return &leakBox{v: v} }, "probe9": probe9, "probe8": probe8, "probe6": probe6, "Cur": cur, "probe4": probe4, "probe5": probe5,
 		"pickdouble": func() func(int64) int64 { return func(x int64) int64 { return 2 * x } },
 		"picktriple": func() func(int64) int64 { return func(x int64) int64 { return 3 * x } },
 		"once":       once, "probe": probe, "hold": hold, "probe2": probe2, "probe3": probe3, "Shared": shared,
@@ -246,6 +275,10 @@ end
 			k.Violate("loop-variable-shared/"+label, fmt.Sprintf("%s: the counting loop `for li = 0; li < 40; li += 1 { lsum = lsum + li }` of the rule gave another sum than 780 in %d execution(s): its loop variable or its accumulator is not its own", label, n),
 				map[string]interface{}{"rule_text": text, "scenario": label})
 		}
+		if n := atomic.SwapInt64(&bad10, 0); n > 0 {
+			k.Violate("method-on-foreign-local/"+label, fmt.Sprintf("%s: `lbx = mkbox(n)  lbx.Put(..)  lbx.Get()` ran on an object another execution had put into ITS local lbx, %d time(s): %v", label, n, seen10.Load()),
+				map[string]interface{}{"rule_text": text, "scenario": label})
+		}
 		k.Count("calls_of_function_valued_locals", atomic.SwapInt64(&calls5, 0))
 		k.Distinct("leak", label, len(got))
 	}
@@ -282,6 +315,10 @@ end
 			k.Violate("local-follows-injected-data", fmt.Sprintf("`kept = Shared.Tags  Shared.Tags = Shared.Tags2  probe6(kept[0], Shared.Tags[0])` observed %v, expected [[11 21]]: the local is the value it was given", s6),
 				map[string]interface{}{"rule_text": text})
 		}
+		if shared.Arr[1] != 77 {
+			k.Violate("injected-array-not-shared", fmt.Sprintf("`Shared.Arr[1] = 77` (an array-typed field of injected data): the host sees Shared.Arr = %v", shared.Arr), map[string]interface{}{"rule_text": text})
+		}
+		shared.Arr = [3]int64{}
 		if shared.Tags2[1] != 4242 {
 			k.Violate("injected-slice-not-shared", fmt.Sprintf("`alias = Shared.Tags2  alias[1] = 4242`: the host sees Shared.Tags2 = %v - a local that holds an injected slice refers to the injected elements", shared.Tags2),
 				map[string]interface{}{"rule_text": text})
